@@ -330,7 +330,11 @@ class BlockTag(Tag):
 
         tokens = TokenStream(token.expression)
         block_name = parse_string_or_identifier(tokens.next())
-        required = tokens.next().type_ == TokenType.REQUIRED
+        # `required` is optional. Anything else after the name is a syntax
+        # error, not a silently ignored token ({% block name requierd %}).
+        required = tokens.current().type_ == TokenType.REQUIRED
+        if required:
+            tokens.next()
         tokens.expect_eos()
 
         block_token = stream.next()
